@@ -450,6 +450,21 @@ def prepare_signature(g, thr, cls):
             fa = at.get(g.cfg.pos1(j), frozenset())
             if not any(x[0] == "true" and x[1][0] == "mcall" and x[1][1] == "Pomerol::BlockNumber::isCorrect" for x in fa):
                 problems.append("the part is created although mapsTo returned no image block (LeftIndex.isCorrect() not tested)")
+            # ... and by nothing else: every right block with an image block gets a part (a further filter silently drops
+            # matrix elements, e.g. the block-diagonal parts of c^+c)
+            pm = g.parent_map()
+            child, cur = j, pm.get(j)
+            while cur is not None and cur != shp["body"] and cur != loops[0]:
+                cn_ = g.nodes[cur]
+                if cn_["k"] == "if" and child != cn_.get("c"):
+                    ck_ = ab(ctx.key(cn_["c"], inline=False))
+                    in_then = child == cn_.get("then")
+                    if not (in_then and ck_ == ("mcall", "Pomerol::BlockNumber::isCorrect", Lr)):
+                        problems.append("part creation is filtered by a condition other than LeftIndex.isCorrect() (%s at %s): blocks with an image get no part" % (
+                            "then" if in_then else "else", g.loc(cur)))
+                elif cn_["k"] in ("while", "do", "for", "switch", "cond"):
+                    problems.append("part creation sits under a further %s statement" % cn_["k"])
+                child, cur = cur, pm.get(cur)
     want = [("map", "Pomerol::FieldOperator::mapPartsFromRight", Rr, Sz), ("map", "Pomerol::FieldOperator::mapPartsFromLeft", Lr, Sz), ("bimap", Lr, Rr), ("size++",)]
     for w in want:
         if w not in items:
